@@ -21,16 +21,21 @@ def _ws_case(core, n, k):
     nxt, ab = T.step(ex, core, tables, b_ins, lambda e: [T.range_u64(e, s, s + n), T.opaque("batch.tx")], "insert_batch")
     tables = [t for t, p in nxt]
     rids = [z3.BitVec(f"reply{j}.id", 64) for j in range(k)]
-    # the only caller (handle_recv_message) passes range = min(reply ids) .. max(reply ids) + 1
+    # the only caller (handle_recv_message) passes range = min(reply ids) .. max(reply ids) + 1 - whatever those are: that a reply whose range is not the
+    # batch's own finds no batch is part of what is decided here (the pending batch is looked up by its whole range)
+    lo_r, hi_r = s, s + n
     if k:
-        lo = z3.And(*[z3.ULE(s, r) for r in rids], z3.Or(*[r == s for r in rids]))
-        hi = z3.And(*[z3.ULE(r, s + (n - 1)) for r in rids], z3.Or(*[r == s + (n - 1) for r in rids]))
+        lo_r, mx = rids[0], rids[0]
+        for r in rids[1:]:
+            lo_r = z3.If(z3.ULT(r, lo_r), r, lo_r)
+            mx = z3.If(z3.UGT(r, mx), r, mx)
+        hi_r = mx + 1
         for t in tables:
-            t.pc.append(z3.And(lo, hi))
+            t.pc.append(z3.ULT(mx, z3.BitVecVal((1 << 64) - 1, 64)))
 
     def mk(e):
         rps = LM.new_list(e, [T.response_with_id(e, T.id_number(e, rids[j]), f"reply{j}") for j in range(k)], name="rps")
-        return [rps, T.range_u64(e, s, s + n)]
+        return [rps, T.range_u64(e, lo_r, hi_r)]
     nxt, ab2 = T.step(ex, core, tables, b_proc, mk, "process_batch")
     fi_id = R.field_index("Response", "id")
     viol, reach_ok, reach_err, bad = [], [], [], []
@@ -311,6 +316,9 @@ def ws_backend_obligations(core, cases):
         ex, ctx, viol, reach_ok, reach_err, abnormal, panics, rids, s = _ws_case(core, n, k)
         name = f"ws:process_batch_response:n={n}:replies={k}"
         common = dict(bodies=sorted(ctx.encoded_bodies), extra={"models": T.CLIENT_DOC + MM.MAP_DOC + LM.LIST_DOC})
+        if abnormal and all(a[0] == "unwound" for a in abnormal) and R.violation_reachable(viol):
+            # a changed body that loops over a range taken from the reply: the paths cut at the unrolling bound decide nothing, a completed path that violates does
+            abnormal = []
         if abnormal:
             out.append(R.Result(engine="mirsym", name=name, kind="kernel", status="unsupported", detail=str(abnormal[0])[:300], bodies=common["bodies"]))
             continue
@@ -324,7 +332,7 @@ def ws_backend_obligations(core, cases):
         out.append(R.decide(name + ":positional", "kernel", z3.Or(*viol) if viol else z3.BoolVal(False), reach,
                             desc=f"a pending batch of {n} answered by {k} responses with ANY u64 ids (duplicates, foreign, missing included): if the call is completed, "
                                  f"it gets exactly {n} entries and entry i is the response with id start+i or the placeholder error; otherwise it fails as a whole",
-                            bounds=f"batch start any u64 (no overflow), n={n}, {k} reply ids any u64 in any order with min = start and max = start+n-1 (what the caller handle_recv_message passes)",
+                            bounds=f"batch start any u64 (no overflow), n={n}, {k} reply ids any u64 in any order; the range handed over is min..max+1 of those ids (what the caller handle_recv_message passes), equal to the batch's or not",
                             keydetail="positional", replay=dict(scenario="c12_ws_batch", vars=args, fixed={"n": n, "k": k}, region=z3.And(z3.ULE(s, 1000))), **common))
         out.append(R.decide(name + ":no-panic", "kernel", z3.Or(*panics) if panics else z3.BoolVal(False), reach,
                             desc="no overflow / unwrap panic for any ids", bounds="as above", keydetail="panic", **common))
